@@ -37,9 +37,12 @@ _GEN = {}
 
 def regenerate(ctx):
     text, sites, probs = tr.converter_sites(common.REPO)
-    ctx.gen("ConverterSites", text)
+    wtext, wsites, unresolved, wprobs = tr.wide_sites(common.REPO)
+    ctx.gen("ConverterSites", text + wtext)
     _GEN["sites"] = sites
-    _GEN["site_problems"] = probs
+    _GEN["site_problems"] = probs + wprobs
+    _GEN["wide_sites"] = wsites
+    _GEN["wide_unresolved"] = unresolved
     text, rules, probs = tr.rule_cfgs(common.REPO)
     if text:
         ctx.gen("RuleCfgs", text)
@@ -73,6 +76,8 @@ FAMILIES = {
     "optimize-versions": ["m_opt_axes_v11", "m_opt_axes_v12", "m_opt_axes_v13", "m_opt_axes_v18", "m_opt_misc_v9", "m_opt_misc_v13",
                           "m_opt_misc_v18", "m_opt_func_a", "m_opt_func_b", "m_opt_func_a_v13", "m_rw_default_v13"],
     "script-versions": ["s_opset15", "s_opset18", "s_domain_v1", "s_domain_v2"],
+    # as_function extraction of a match spanning six operator domains (main graph / model-local function / If branch)
+    "rw-as-function": ["m_rw_as_function_domains", "m_rw_as_function_domains_fn", "m_rw_as_function_domains_if"],
 }
 
 # hand-made histories aimed at the mechanisms named in the property's anchors (each op is a target for its prefix)
@@ -270,6 +275,21 @@ def part_sites(ctx):
         ctx.tie_broken("proof", "unsorted_sites evaluation", raw[-600:])
         return None
     bad_lines = common.parse_nat_list(vals[0])
+    # the other modules on the way to serialized bytes (rewriter core, optimizer, version converter, values, builders, inliner)
+    wsites = _GEN.get("wide_sites", [])
+    okw, valsw, raww = ctx.coq_eval([], "Require Import OV.Determinism.Perm OV.Determinism.PermProofs OV.Gen.ConverterSites.\n"
+                                        "Eval vm_compute in (unsorted_sites ConverterSites.sites_wide).\n"
+                                        "Theorem wide_sites_all_ok : forallb site_ok ConverterSites.sites_wide = true.\nProof. vm_compute. reflexivity. Qed.\n",
+                                    name="sites_wide")
+    bad_wide = common.parse_nat_list(valsw[0]) if valsw else []
+    ctx.obligation("rewriter core / optimizer / version converter / values / builders / inliner: every set that is definitely iterated into "
+                   "something emitted is wrapped in sorted(...) (theorem wide_sites_all_ok by vm_compute over Gen/ConverterSites.v)",
+                   okw and not bad_wide,
+                   "unsorted emitting sites: " + "; ".join(f"{s['file']}:{s['line']} {s['func']} ({s['expr']})" for s in wsites
+                                                           if s["line"] in bad_wide and s["emits"] and not s["sorted"]) if bad_wide else raww[-300:])
+    ctx.cover(wide_set_sites=[f"{s['file']}:{s['func']}:{s['line']}:{s['kind']}:{'sorted' if s['sorted'] else 'unsorted'}" for s in wsites],
+              wide_set_values_not_followed=len(_GEN.get("wide_unresolved", [])))
+    _GEN["bad_wide"] = [s for s in wsites if s["line"] in bad_wide and s["emits"] and not s["sorted"]]
     thm = ("Require Import OV.Determinism.Perm OV.Determinism.PermProofs OV.Gen.ConverterSites.\n"
            "From Coq Require Import Permutation.\n"
            "Theorem converter_sites_all_ok : forallb site_ok ConverterSites.sites = true.\nProof. vm_compute. reflexivity. Qed.\n"
@@ -396,6 +416,13 @@ def part_oracle(ctx, unsorted_sites, bad_rules):
         else:
             for sd in (seeds[i % len(seeds)], seeds[(i + 3) % len(seeds)]):
                 jobs.append(("seq", tuple(s), sd))
+    # every operation once, in catalogue order, under further hash seeds (three processes per half): an order taken from a
+    # Python set anywhere on the way to the serialized result shows up here whatever the operation is
+    extra_seeds = ["1", "2", "3"] if ctx.tier == "quick" else ["1", "2", "3", "5", "11", "99"]
+    half = (len(ids) + 1) // 2
+    for sd in extra_seeds:
+        jobs.append(("seq", tuple(ids[:half]), sd))
+        jobs.append(("seq", tuple(ids[half:]), sd))
     cache = {}
 
     def do(job):
@@ -515,9 +542,12 @@ def part_oracle(ctx, unsorted_sites, bad_rules):
         for s in unsorted_sites:
             need.add("If-output-order" if "if_stmt" in s["func"] else "Loop-state-order" if "loop_stmt" in s["func"] else f"{s['func']}:{s['line']}")
         unexplained = sorted(need - classes_seen)
-        if unexplained:
+        if unexplained and not seed_dep:
             ctx.tie_broken("translator", "converter_sites", f"unsorted set->sequence sites without an observed seed-dependent result: {unexplained} "
                            f"(lines {[s['line'] for s in unsorted_sites]})")
+    if _GEN.get("bad_wide") and not seed_dep:
+        ctx.tie_broken("translator", "wide_sites", "unsorted set->sequence sites without an observed seed-dependent result: "
+                       + "; ".join(f"{s['file']}:{s['line']}" for s in _GEN["bad_wide"]))
     return seed_dep, hist_dep
 
 
